@@ -1003,6 +1003,50 @@ fn check_context(case: &Case, ctx: &mut Ctx) -> Option<Violation> {
             }
         }
     }
+    if contains_violation.is_none() && !as_dir && skip_k == 0 && rows.len() >= 3 && rows.len() <= 400 {
+        // a filter in front of the selections lets only some values through: the survivors
+        // keep their context, whatever was dropped between them (ordinals chosen here, the
+        // filter spelled with &index, the expected rows taken from the rows just verified)
+        let mut rng = Rng::new(crate::rng::mix(&[case.stream().len() as u64, rows.len() as u64, 31]));
+        let mut keep: Vec<usize> = (0..rows.len()).filter(|_| rng.chance(1, 3)).collect();
+        if keep.is_empty() {
+            keep.push(rng.below(rows.len()));
+        }
+        while keep.len() > 12 {
+            let i = rng.below(keep.len());
+            keep.remove(i);
+        }
+        let expr = if keep.len() == 1 {
+            format!("(= &index {})", keep[0])
+        } else {
+            format!("(or {})", keep.iter().map(|k| format!("(= &index {k})")).collect::<Vec<_>>().join(" "))
+        };
+        let mut f = case.clone();
+        f.opts.push(vec![format!("--filter={expr}")]);
+        let b = if use_files {
+            ctx.exec(sim_files_spec(&f, &paths, &files, &[]))
+        } else {
+            let input = case.stream();
+            ctx.exec(case_spec(&f, &input))
+        };
+        if b.outcome.is_ok() {
+            let tb = String::from_utf8_lossy(&b.obs.stdout).to_string();
+            let rb: Vec<&str> = tb.split('\n').filter(|l| !l.is_empty()).collect();
+            let want: Vec<&str> = keep.iter().map(|k| rows[*k]).collect();
+            ctx.stats.probe("context rows re-checked behind a filter on &index");
+            if rb != want {
+                let at = rb.iter().zip(want.iter()).position(|(x, y)| x != y).unwrap_or(rb.len().min(want.len()));
+                return viol(
+                    "C17.context",
+                    format!(
+                        "behind --filter={expr} the rows are not the unfiltered rows of those values (first difference at kept row {at}): {:?} vs {:?}",
+                        rb.get(at),
+                        want.get(at)
+                    ),
+                );
+            }
+        }
+    }
     if contains_violation.is_none() && !as_dir && skip_k == 0 && rows.len() >= 2 {
         // the selectors belong to their value even when a stage holds the value back: two
         // sort keys, a constant and &index descending, must give exactly the rows in reverse
